@@ -33,7 +33,7 @@ def _assigned_names(fn):
             tg = [n.target]
         elif isinstance(n, ast.AnnAssign):
             tg = [n.target] if n.value is not None else []      # a bare declaration (cdef double x) assigns nothing
-        elif isinstance(n, (ast.For, ast.comprehension)):
+        elif isinstance(n, ast.For):
             tg = [n.target]
         elif isinstance(n, ast.With):
             tg = [i.optional_vars for i in n.items if i.optional_vars is not None]
@@ -373,8 +373,11 @@ def propagate(fn, max_size=400):
             return False
         if isinstance(v, (ast.List, ast.Dict, ast.Set, ast.ListComp, ast.DictComp, ast.SetComp, ast.GeneratorExp)):
             return False
+        bound = {t.id for c in ast.walk(v) if isinstance(c, ast.comprehension) for t in ast.walk(c.target) if isinstance(t, ast.Name)}
         for x in ast.walk(v):
             if isinstance(x, ast.Name):
+                if x.id in bound:
+                    continue
                 if x.id in params:
                     if counts.get(x.id, 0) > 0:
                         return False
